@@ -624,4 +624,203 @@ theorem sealSignatures_spec (m : ESigs) (order : List Nat) (ho : order.Nodup) (h
     simp only [List.tail_cons] at hx
     exact k2 x hx
 
+theorem edScan_none_iff (C : Nat) (V : List (Nat × ESig)) (seen : List Nat) (empty : Nat)
+    (h0 : ∀ p, seen.count p ≤ C) (h1 : empty ≤ C) :
+    edScan C V seen empty = none ↔
+      (∀ p, seen.count p + (V.filter (forP p)).length ≤ C) ∧ empty + (V.filter isEmpty).length ≤ C := by
+  induction V generalizing seen empty with
+  | nil => simp [edScan]; exact ⟨h0, h1⟩
+  | cons x rest ih =>
+    obtain ⟨e, s⟩ := x
+    unfold edScan
+    by_cases hse : s.forEmpty = true
+    · simp only [hse, if_true]
+      have hf : ∀ p, forP p (e, s) = false := by intro p; simp [forP, hse]
+      have hi : isEmpty (e, s) = true := by simp [isEmpty, hse]
+      simp only [List.filter_cons, hf, hi, Bool.false_eq_true, if_false, if_true, List.length_cons]
+      by_cases hc : empty + 1 > C
+      · simp only [hc, if_true]
+        constructor
+        · intro h; simp at h
+        · intro ⟨_, h⟩; omega
+      · simp only [hc, if_false]
+        rw [ih seen (empty + 1) h0 (by omega)]
+        constructor
+        · intro ⟨a, b⟩; exact ⟨a, by omega⟩
+        · intro ⟨a, b⟩; exact ⟨a, by omega⟩
+    · have hse' : s.forEmpty = false := by simpa using hse
+      simp only [hse', Bool.false_eq_true, if_false]
+      have hi : isEmpty (e, s) = false := by simp [isEmpty, hse']
+      simp only [List.filter_cons, hi, Bool.false_eq_true, if_false]
+      by_cases hc : (s.proposer :: seen).count s.proposer > C
+      · simp only [hc, if_true]
+        constructor
+        · intro h; simp at h
+        · intro ⟨a, _⟩
+          have := a s.proposer
+          simp only [forP, hse', Bool.not_false, Bool.true_and, beq_self_eq_true, if_true, List.length_cons] at this
+          simp only [List.count_cons_self] at hc
+          omega
+      · simp only [hc, if_false]
+        have h0' : ∀ p, (s.proposer :: seen).count p ≤ C := by
+          intro p
+          by_cases hp : s.proposer = p
+          · subst hp; omega
+          · rw [List.count_cons_of_ne (by exact fun e => hp e)]; exact h0 p
+        rw [ih (s.proposer :: seen) empty h0' h1]
+        have key : ∀ p, (s.proposer :: seen).count p + (rest.filter (forP p)).length =
+            seen.count p + (if forP p (e, s) = true then (e, s) :: rest.filter (forP p) else rest.filter (forP p)).length := by
+          intro p
+          by_cases hp : s.proposer = p
+          · subst hp
+            simp only [forP, hse', Bool.not_false, Bool.true_and, beq_self_eq_true, if_true, List.length_cons, List.count_cons_self]
+            omega
+          · have hne : (s.proposer == p) = false := by simpa using hp
+            simp only [forP, hse', Bool.not_false, Bool.true_and, hne, Bool.false_eq_true, if_false]
+            rw [List.count_cons_of_ne (by exact fun e => hp e)]
+        constructor
+        · intro ⟨a, b⟩; exact ⟨fun p => by rw [← key p]; exact a p, b⟩
+        · intro ⟨a, b⟩; exact ⟨fun p => by rw [key p]; exact a p, b⟩
+
+theorem visits_perm (m : ESigs) (o1 o2 : List Nat) (h : o1.Perm o2) : (visits m o1).Perm (visits m o2) := by
+  unfold visits; exact List.Perm.flatMap_right _ h
+
+/-- Whether endorseDone reports a decision does not depend on the iteration order of the map. -/
+theorem endorseDone_isSome_perm (c : Cand) (o1 o2 : List Nat) (h : o1.Perm o2) (C : Nat) :
+    (endorseDone c o1 C).isSome = (endorseDone c o2 C).isSome := by
+  unfold endorseDone
+  split
+  · rfl
+  · have hp := visits_perm c.esigs o1 o2 h
+    have key : ∀ o, (edScan C (visits c.esigs o) [] 0 = none ↔
+        (∀ p, ((visits c.esigs o).filter (forP p)).length ≤ C) ∧ ((visits c.esigs o).filter isEmpty).length ≤ C) := by
+      intro o
+      have := edScan_none_iff C (visits c.esigs o) [] 0 (by simp) (by omega)
+      simpa using this
+    have e1 : ∀ p, ((visits c.esigs o1).filter (forP p)).length = ((visits c.esigs o2).filter (forP p)).length :=
+      fun p => (hp.filter _).length_eq
+    have e2 : ((visits c.esigs o1).filter isEmpty).length = ((visits c.esigs o2).filter isEmpty).length :=
+      (hp.filter _).length_eq
+    have : (edScan C (visits c.esigs o1) [] 0 = none ↔ edScan C (visits c.esigs o2) [] 0 = none) := by
+      rw [key o1, key o2]; simp only [e1, e2]
+    cases h1 : edScan C (visits c.esigs o1) [] 0 <;> cases h2 : edScan C (visits c.esigs o2) [] 0 <;> simp_all
+
+/-! commitDone fallback -/
+
+theorem cdInner_none_le (C' : Nat) (l : List ESig) (emptyCnt : Nat) (seen : List Nat)
+    (h0 : ∀ q, seen.count q ≤ C') (h : (cdInner C' l emptyCnt seen).2.2 = none) :
+    ∀ q, (cdInner C' l emptyCnt seen).2.1.count q ≤ C' := by
+  induction l generalizing emptyCnt seen with
+  | nil => simpa [cdInner] using h0
+  | cons s rest ih =>
+    unfold cdInner at h ⊢
+    split
+    · rename_i hse; simp only [hse, if_true] at h; exact ih _ _ h0 h
+    · rename_i hse
+      simp only [hse, if_false] at h
+      split
+      · rename_i hc; simp only [hc, if_true] at h; simp at h
+      · rename_i hc
+        simp only [hc, if_false] at h
+        refine ih _ _ ?_ h
+        intro q
+        by_cases hp : s.proposer = q
+        · subst hp; omega
+        · rw [List.count_cons_of_ne (by exact fun e => hp e)]; exact h0 q
+
+theorem cdScan_none (m : ESigs) (isEnd : Nat → Bool) (C' : Nat) (order : List Nat) (emptyCnt : Nat) (seen : List Nat)
+    (h0 : ∀ q, seen.count q ≤ C') (h : cdScan m isEnd C' order emptyCnt seen = none) :
+    ∀ q, seen.count q + ((visits m order).filter (forP q)).length ≤ C' := by
+  induction order generalizing emptyCnt seen with
+  | nil => simpa [visits] using h0
+  | cons e rest ih =>
+    have hsplit : visits m (e :: rest) = ((lookup m e).getD []).map (fun s => (e, s)) ++ visits m rest := by
+      simp [visits]
+    intro q
+    rw [hsplit, List.filter_append, List.length_append]
+    unfold cdScan at h
+    simp only at h
+    generalize hem : (if (!isEnd e) = true then emptyCnt + (List.filter (fun x => x.forEmpty) ((lookup m e).getD [])).length else emptyCnt) = em at h
+    obtain ⟨_, s2⟩ := cdInner_spec C' ((lookup m e).getD []) e em seen
+    have hle := cdInner_none_le C' ((lookup m e).getD []) em seen h0
+    split at h
+    · simp at h
+    · rename_i a b hq
+      have hcnt := s2 (by rw [hq]) q
+      have hle' := hle (by rw [hq])
+      rw [hq] at hcnt hle'
+      simp only at hcnt hle'
+      have := ih _ _ hle' h q
+      omega
+
+theorem commitDone_isSome_perm (c : Cand) (o1 o2 : List Nat) (h : o1.Perm o2) (isEnd : Nat → Bool) (C N : Nat) :
+    (commitDone c o1 isEnd C N).isSome = (commitDone c o2 isEnd C N).isSome := by
+  unfold commitDone
+  split
+  · rfl
+  · simp only
+    generalize (N + 4294967296 - 1 - C) % 4294967296 = C'
+    have hp := visits_perm c.esigs o1 o2 h
+    have e1 : ∀ p, ((visits c.esigs o1).filter (forP p)).length = ((visits c.esigs o2).filter (forP p)).length :=
+      fun p => (hp.filter _).length_eq
+    cases h1 : cdScan c.esigs isEnd C' o1 0 [] with
+    | none =>
+      cases h2 : cdScan c.esigs isEnd C' o2 0 [] with
+      | none => rfl
+      | some r =>
+        obtain ⟨p, ec⟩ := r
+        have a := cdScan_spec c.esigs isEnd C' o2 0 [] p ec h2
+        have b := cdScan_none c.esigs isEnd C' o1 0 [] (by simp) h1 p
+        rw [e1 p] at b; simp at a b; omega
+    | some r =>
+      obtain ⟨p, ec⟩ := r
+      cases h2 : cdScan c.esigs isEnd C' o2 0 [] with
+      | some r2 => rfl
+      | none =>
+        have a := cdScan_spec c.esigs isEnd C' o1 0 [] p ec h1
+        have b := cdScan_none c.esigs isEnd C' o2 0 [] (by simp) h2 p
+        rw [← e1 p] at b; simp at a b; omega
+
+theorem nodup_map_inj {α β : Type} (f : α → β) (l : List α) (h : (l.map f).Nodup) (a b : α) (ha : a ∈ l) (hb : b ∈ l)
+    (hf : f a = f b) : a = b := by
+  induction l with
+  | nil => simp at ha
+  | cons x r ih =>
+    simp only [List.map_cons, List.nodup_cons, List.mem_map, not_exists, not_and] at h
+    rcases List.mem_cons.mp ha with rfl | ha' <;> rcases List.mem_cons.mp hb with rfl | hb'
+    · rfl
+    · exact absurd hf.symm (h.1 b hb')
+    · exact absurd hf (h.1 a ha')
+    · exact ih h.2 ha' hb'
+
+theorem newBlockProposal_dup (c : Cand) (hn : (c.proposals.map (·.proposer)).Nodup) (p q : Proposal)
+    (hq : q ∈ c.proposals) (hqp : q.proposer = p.proposer) :
+    newBlockProposal c p = (c, if q.sig = p.sig then .ok else .dup) := by
+  unfold newBlockProposal
+  cases hf : c.proposals.find? (·.proposer == p.proposer) with
+  | none =>
+    have := List.find?_eq_none.mp hf q hq
+    simp [hqp] at this
+  | some x =>
+    have hx := List.mem_of_find?_eq_some hf
+    have hxp : x.proposer = p.proposer := by simpa using List.find?_some hf
+    have : x = q := nodup_map_inj (·.proposer) c.proposals hn x q hx hq (hxp.trans hqp.symm)
+    subst this
+    by_cases hs : x.sig = p.sig <;> simp [hs]
+
+theorem newBlockCommitment_dup (c : Cand) (hn : (c.commitMsgs.map (·.committer)).Nodup) (m q : CommitMsg)
+    (hq : q ∈ c.commitMsgs) (hqm : q.committer = m.committer) :
+    newBlockCommitment c m = (c, if q.hash = m.hash then .ok else .dup) := by
+  unfold newBlockCommitment
+  cases hf : c.commitMsgs.find? (·.committer == m.committer) with
+  | none =>
+    have := List.find?_eq_none.mp hf q hq
+    simp [hqm] at this
+  | some x =>
+    have hx := List.mem_of_find?_eq_some hf
+    have hxp : x.committer = m.committer := by simpa using List.find?_some hf
+    have : x = q := nodup_map_inj (·.committer) c.commitMsgs hn x q hx hq (hxp.trans hqm.symm)
+    subst this
+    by_cases hs : x.hash = m.hash <;> simp [hs]
+
 end Poly.Proofs.VBFTCount
